@@ -71,26 +71,46 @@ CHECK_DEADLOCK FALSE
        _set(edits), _set(mutadds), _set(muts))
 
 
+# every named rule of ProtoValid!Broken; a tier that exports no mutant for one of them is vacuous for it
+ALL_RULES = ["V-import-exists", "V-import-dup", "V-import-cycle", "V-dup-symbol", "V-pkg-symbol",
+             "V-p2-label-missing", "V-p3-required", "V-ed-optional", "V-ed-required", "V-oneof-label", "V-map-label",
+             "V-map-in-oneof", "V-ext-required", "V-num-positive", "V-num-max", "V-num-impl-reserved", "V-num-dup",
+             "V-num-reserved", "V-name-reserved", "V-num-in-extrange", "V-range-overlap", "V-p3-extrange", "V-rname-dup",
+             "V-enum-empty", "V-enum-first-zero", "V-enum-dup-num", "V-oneof-empty", "V-map-key", "V-p3-default",
+             "V-default-repeated", "V-default-type", "V-default-message", "V-default-enum-value", "V-json-conflict",
+             "V-ref-resolve", "V-ref-kind", "V-ext-range", "V-ext-dup", "V-p3-ext", "V-closed-enum-implicit"]
+QUICK_UNCOVERED = ["V-p3-ext"]     # needs an AddExt mutant (thorough only)
+
 SMALL_BASES = ["p2", "p3", "ed", "p2p2", "p3p2", "p2p3", "edp2", "p3p3"]
 RICH_BASES = ["R2", "R3", "RE"]
 
 
 def runs(tier, pid):
     """(name, cfg text, simulate count or None, depth, keep fraction of valid cases, keep fraction of mutants).
-    Measured (4 TLC workers, loaded machine): rich-mut ~1.7k states 40 s; one small base with MaxAdds=2 and
-    mutants up to n=1 ~3k states."""
+    Measured with 4-5 TLC workers on a loaded machine (load 50): rich-mut 2.2k states / 75 s; small-1edit 7.9k / 110 s;
+    rich-1edit 2.5k valid / 3.5 min; single-2edits 14.8k / 2.5 min; sim-deep ~1.6k distinct cases / 1 min.
+    C02 only looks at valid workspaces: its configurations switch the mutations off (far fewer states)."""
     slow = pid == "C27"          # two compilers per case, ~10 ms
+    nomut = dict(muts=[], mutadds=[]) if pid == "C02" else {}
+
+    def c(*a, **kw):
+        kw.update(nomut)
+        return cfg(*a, **kw)
+
     if tier == "thorough":
-        return [
-            ("rich-mut", cfg(RICH_BASES, ["a"], 0), None, None, 1.0, 1.0),
-            ("small-2edits", cfg(SMALL_BASES, ["a", "ab"], 2, mutmaxn=1), None, None, 1.0, 0.3 if slow else 1.0),
-            ("rich-1edit", cfg(RICH_BASES, ["a"], 1, mutmaxn=0, muts=[], mutadds=[]), None, None, 1.0, 1.0),
-            ("sim-deep", cfg(SMALL_BASES + RICH_BASES, ["none", "a", "ab", "b"], 5), 40, 7, 1.0, 0.5 if slow else 1.0),
+        out = [
+            ("rich-mut", c(RICH_BASES, ["a"], 0, mutadds=SMALL_EDITS + ["AddExt"]), None, None, 1.0, 1.0),
+            ("small-1edit", c(SMALL_BASES, ["none", "a", "ab"], 1, mutmaxn=0), None, None, 1.0, 1.0),
+            ("rich-1edit", c(RICH_BASES, ["a"], 1, mutmaxn=0, muts=[], mutadds=[]), None, None, 0.5 if slow else 1.0, 1.0),
+            ("single-2edits", c(["p2", "p3", "ed"], ["a"], 2, mutmaxn=1, types=("a", "m"), flds=("zf", "z_f"),
+                                vals=("za",), exts=("zx",)), None, None, 0.3 if slow else 1.0, 0.3 if slow else 1.0),
+            ("sim-deep", c(SMALL_BASES + RICH_BASES, ["none", "a", "ab"], 5), 30, 7, 1.0, 1.0),
         ]
+        return out[1:] if pid == "C02" else out     # rich-mut without mutations is just the three bases
     sb = SMALL_BASES[vf.seed() % len(SMALL_BASES)]
     return [
-        ("rich-mut+small", cfg(RICH_BASES + [sb], ["a"], 1, grow=[sb], mutbases=RICH_BASES,
-                               wide=["message", "enum", "service"]),
+        ("rich-mut+small", c(RICH_BASES + [sb], ["a"], 1, grow=[sb], mutbases=RICH_BASES,
+                             wide=["message", "enum", "service"]),
          None, None, 1.0, 0.6 if slow else 1.0),
     ]
 
@@ -276,8 +296,7 @@ def run(pid, tier, replay=None):
         bounds.append({"run": "replay", "cases": len(cases)})
     else:
         for name, cfgtext, sim, depth, kv, km in runs(tier, pid):
-            r, cnt, stats, mism = _run_one(pid, wd, binary, name, cfgtext, sim, depth, kv, km, rng,
-                                           cov=(tier == "thorough" and not sim))
+            r, cnt, stats, mism = _run_one(pid, wd, binary, name, cfgtext, sim, depth, kv, km, rng)
             absorb(mism)
             _merge(total, stats)
             states += r.distinct
@@ -297,6 +316,11 @@ def run(pid, tier, replay=None):
             if not mism2:
                 raise vf.MachineryError("binding self-test: corrupted expectations were not detected")
             bounds.append({"run": "selftest-corrupt", "mismatches_reported": len(mism2)})
+        if pid != "C02":
+            want = [r for r in ALL_RULES if tier == "thorough" or r not in QUICK_UNCOVERED]
+            missing = [r for r in want if not (total.get("rules") or {}).get(r)]
+            if missing:
+                raise vf.MachineryError("vacuous for rule(s) %s: no mutant breaking exactly that rule was exported" % missing)
         if pid == "C02":
             sk = (total.get("skipped") or {}).get("valid-case-rejected", 0)
             if sk * 2 > max(1, total.get("valid_cases", 0)):
